@@ -66,6 +66,53 @@ def build():
     r = C.sh('timeout 1200 make -s -C %s/c19/ocaml VERIF=%s' % (C.VERIF, C.VERIF))
     if r.returncode != 0:
         raise C.BuildError('forthrun build failed:\n' + r.stdout[-3000:])
+    regenerate_tables()
+
+
+def regenerate_tables():
+    """mini-translator (DESIGN 3.6): the opcode numbering, read-format constants, builtin-word table and reserved
+    words are re-read from ForthMachine.cpp on every run and compared INSIDE Rocq with the model's tables."""
+    src = open(os.path.join(C.REPO, 'src', 'libawkward', 'forth', 'ForthMachine.cpp')).read()
+    defs = dict(re.findall(r'#define\s+((?:CODE|READ|BOUND)_\w+)\s+\(?(0x8 \* \d+|\d+)\)?\s*$', src, re.M))
+    if len(defs) < 80:
+        raise C.BuildError('table extraction from ForthMachine.cpp failed (%d #defines found)' % len(defs))
+    lines = ['From Coq Require Import ZArith List String.', 'From AwkForth Require Import Forth.', 'Open Scope Z_scope.']
+    for name, val in sorted(defs.items()):
+        if name == 'READ_MASK':
+            continue
+        v = eval(val.replace('0x8', '8'))
+        lines.append('Example table_%s : Forth.%s = %d. Proof. reflexivity. Qed.' % (name, name, v))
+    m = re.search(r'generic_builtin_words_\(\{(.*?)\}\);', src, re.S)
+    words = re.findall(r'\{"((?:[^"\\]|\\.)*)",\s*(CODE_\w+)\}', m.group(1))
+    if len(words) < 35:
+        raise C.BuildError('builtin word table extraction failed')
+    for i, (w, code) in enumerate(words):
+        if code in ('CODE_PRINT', 'CODE_PRINT_CR', 'CODE_PRINT_STACK'):
+            lines.append('Example word_%d : in_strings (bytes "%s") unsupported_words = true. Proof. reflexivity. Qed.' % (i, w))
+        else:
+            lines.append('Example word_%d : lookup_string (bytes "%s") builtin_words = Some Forth.%s. Proof. reflexivity. Qed.' % (i, w, code))
+    lines.append('Example word_count : List.length builtin_words = %d%%nat. Proof. reflexivity. Qed.'
+                 % sum(1 for w, c in words if c not in ('CODE_PRINT', 'CODE_PRINT_CR', 'CODE_PRINT_STACK')))
+    m = re.search(r'reserved_words_\(\{(.*?)\}\);', src, re.S)
+    body = re.sub(r'//[^\n]*', '', m.group(1))
+    rw = re.findall(r'"((?:[^"\\]|\\.)*)"', body)
+    for i, w in enumerate(rw):
+        if w in ('\\n',):
+            continue
+        w2 = w.replace('\\\\', '\\').replace('\\"', '""')
+        lines.append('Example reserved_%d : match is_reserved (bytes "%s") with COk true => True | _ => False end. Proof. exact I. Qed.' % (i, w2))
+    m = re.search(r'input_parser_words_\(\{(.*?)\}\);', src, re.S)
+    pw = re.findall(r'"([^"]*)"', re.sub(r'//[^\n]*', '', m.group(1)))
+    lines.append('Example parser_words : List.length input_parser_words = %d%%nat. Proof. reflexivity. Qed.' % len(pw))
+    for i, w in enumerate(pw):
+        lines.append('Example parser_%d : in_strings (bytes "%s") input_parser_words = true. Proof. reflexivity. Qed.' % (i, w))
+    fn = os.path.join(BUILD19, 'Tables_C19.v')
+    open(fn, 'w').write('\n'.join(lines) + '\n')
+    r = C.sh('cd %s && timeout 600 coqc -R %s AwkForth Tables_C19.v' % (BUILD19, COQ_DIR))
+    if r.returncode != 0:
+        m = re.search(r'line (\d+)', r.stdout)
+        entry = lines[int(m.group(1)) - 1] if m else '?'
+        raise C.BuildError('a table of ForthMachine.cpp no longer matches the model: %s\n%s' % (entry, r.stdout[-800:]))
 
 
 # ---------------------------------------------------------------- session lines
@@ -94,11 +141,11 @@ STEPCAP = 6000
 
 def segmentations(rng, paused):
     """name -> list of segment atoms; A is the reference (one call, then resume through pauses)"""
-    out = {'A': ['run', '(finish 50)'], 'B': ['begin', '(stepall %d)' % STEPCAP]}
+    out = {'A': ['run', '(finish 3000)'], 'B': ['begin', '(stepall %d)' % STEPCAP]}
     mixed = ['begin']
     for _ in range(rng.randint(1, 3)):
         mixed.append('(stepall %d)' % rng.randint(0, 9) if rng.random() < 0.7 else '(finish 1)')
-    mixed += ['(finish 50)']
+    mixed += ['(finish 3000)']
     out['C'] = mixed
     return out
 
@@ -217,7 +264,15 @@ def replay_cases(path):
     order = []
     for ln in open(path):
         ln = ln.strip()
-        if not ln or ln.startswith('#'):
+        if not ln:
+            continue
+        if ln.startswith('#'):
+            m = re.match(r'^# expected \(stack([^)]*)\)', ln)
+            if m and order:
+                groups[order[-1]].meta['expect_stack'] = [int(x) for x in m.group(1).split()]
+            m = re.match(r'^# signature: (\S+)', ln)
+            if m and order and m.group(1) != 'None':
+                groups[order[-1]].meta['sig'] = m.group(1)
             continue
         p = parse_line(ln)
         if not p:
@@ -323,7 +378,8 @@ def with_src(line, src_text):
 def minimise(lines, src_text, still_fails, budget=60):
     """token-level delta debugging of the program text; lines: the session lines of the finding (same program).
     still_fails(list of lines) -> bool re-runs implementation and model."""
-    toks = src_text.split(' ')
+    toks = src_text.replace('\n', ' \n ').split(' ')
+    toks = [t for t in ' '.join(toks).replace('\t', ' ').replace('\r', ' ').replace('\x0b', ' ').replace('\x0c', ' ').split(' ') if t]
     n = 2
     while len(toks) >= 2 and budget > 0:
         chunk = max(1, len(toks) // n)
@@ -404,6 +460,7 @@ def run(cases, tier, rng):
             'prop:documented-semantics': True}
 
     def add(kind, what, clines, sig=None, no_input=False, ob=None):
+        clines = list(clines) + ['# signature: %s' % sig]
         findings.append(dict(kind=kind, what=what, case_lines=clines, signature=sig, no_input=no_input,
                              size=sum(len(x) for x in clines)))
         known = sig is not None and any(k.get('property') == 'C19' and k.get('signature') == sig and k.get('status') != 'fixed'
@@ -445,6 +502,7 @@ def run(cases, tier, rng):
                     % (sig, kind, ires[:160]), [ln, '# impl: ' + ires[:600]] + (['# stderr: ' + errs[sid].replace('\n', '\n# ')] if sid in errs else []),
                     sig=sig, ob='prop:no-crash')
                 count('ub')
+                count('ub-kind-%d' % kind)
                 continue
             if ires.startswith('crash') or ires.startswith('timeout'):
                 add('crash', 'forth session: implementation crashed/hung (%s) where the model terminates normally' % ires,
@@ -490,7 +548,9 @@ def run(cases, tier, rng):
                     [ln, '# impl : ' + ci[:1500], '# model: ' + mres[:1500]], no_input=True, ob=which)
                 count('modeldiff')
         # ---- property-level: segmentation independence on the implementation alone
-        if 'A' in obs:
+        if 'A' in obs and '(err 0) (ready 1) (done 0)' in obs['A']:
+            count('run-cap-reached')                    # more pauses than the resume budget: nothing to compare
+        elif 'A' in obs:
             for k in ('B', 'C'):
                 if k in obs and obs[k] != obs['A']:
                     sidk = '%s.%s' % (c.id, k)
